@@ -645,6 +645,10 @@ func walkIPRanges(ranges []nets.IPRange, f func(ip net.IP) bool) {
 			if f(ip) {
 				return
 			}
+			if first == last {
+				// avoid wrapping around when last is 255.255.255.255
+				break
+			}
 		}
 	}
 }
